@@ -396,27 +396,27 @@ def version_gate(dst, verif):
 # ---------------------------------------------------------------------------
 _T = "bounded symbolic execution of the real code (Kani 0.68 / CBMC 6.11 / CaDiCaL)"
 PROPS = {
-    "C01": dict(design_ref="§2 C01", technique=_T + ": scanner tiling with contract stubs, header parsers, chunk/varint/IDAT round trips",
+    "C01": dict(design_ref="§2 C01", technique=_T + ": header parsers, parse_idat on concrete chunk layouts, varint/literal-chunk/IDAT-descriptor round trips, scanner on files where nothing is accepted",
                 level_text="Every lemma the container round trip decomposes into is decided by the SAT solver for all inputs inside the stated byte bounds; composition across lemmas is by argument (DESIGN §C01).",
-                level_note="Bounds per harness in evidence; files in which the real analysis accepts a >1024-byte stream are outside (no such stream fits the bounds). Trusted: Kani/CBMC, stubs, crc32fast shim."),
-    "C02": dict(design_ref="§2 C02", technique=_T + ": mirror-pair lemmas (parameter header, token predict/recreate over a model chain, hops inverse, tree header, block structure)",
+                level_note="Bounds per harness in evidence. Outside: files in which a stream is accepted (scanner cursor arithmetic of the accepting arms: tiling harnesses are thorough-tier and ran out of memory), IDAT parse->recreate identity (thorough). Trusted: Kani/CBMC, stubs, crc32fast shim / cheap checksum stub."),
+    "C02": dict(design_ref="§2 C02", technique=_T + ": mirror-pair lemmas (parameter header over estimator_range, run-length tree mirror, hops inverse and matcher totality over a model chain, writer token coding)",
                 level_text="Each encoder/decoder mirror pair is decided for all inputs inside its bound with the arithmetic coder replaced by a transparent recording codec.",
-                level_note="Model hash chain at the HashChain trait seam (real hash tables are out of reach); dynamic-block Huffman prediction and the estimator are outside."),
+                level_note="Model hash chain at the HashChain trait seam (real hash tables are out of reach). Outside: the token-level predict_block/recreate_block mirror (harness exists, out of memory at every size), block-structure mirror (thorough), dynamic-block Huffman prediction, table-based estimators."),
     "C03": dict(design_ref="§2 C03", technique=_T + ": differential harness against an RFC 1951 reference decoder written in the harness",
-                level_text="Reader output equals an independent RFC-1951 reading for all stored/fixed blocks within N bytes, all table entries and all small canonical codes.",
-                level_note="Oracle is the in-harness reference, validated natively against zlib (sampled) by setup_cmd; dynamic blocks over full alphabets are outside."),
+                level_text="Tables, fixed code, stored blocks, window copy and the top length/distance codes of the real reader equal an independent RFC-1951 reading typed into the harness.",
+                level_note="Oracle is the in-harness RFC 1951 reference (not zlib itself, which is C). Outside: dynamic blocks, window distances above 64 in the quick tier, consumed-prefix lemma (thorough)."),
     "C04": dict(design_ref="§2 C04", technique=_T + ": bounded equivalence of format-defining kernels, current tree vs frozen reference crate",
                 level_text="For each format-defining kernel the solver shows current(x) == reference(x) for all x in the bound; an announced version bump passes.",
                 level_note="Kernel list in evidence; code outside the list (table-level chain code, estimators) is not covered."),
     "C05": dict(design_ref="§2 C05", technique=_T + ": Kani panic/overflow/bounds/unwinding checks on parser, tree predictor, matcher, container",
                 level_text="No panic, overflow, out-of-bounds or unbounded loop for any input inside the bounds, for the harnessed functions.",
                 level_note="Estimators and the real hash-table walk are outside; dev-profile semantics."),
-    "C06": dict(design_ref="§2 C06", technique=_T + ": real scanner with an offset-oracle stub for the analysis",
-                level_text="For every wrapper/header variant in the bound the scanner calls the analysis exactly at the stream start and emits the chunk there.",
-                level_note="Acceptance of S by the real analysis is stubbed (oracle); large optional fields outside."),
-    "C07": dict(design_ref="§2 C07", technique=_T + ": parse -> re-serialise identity on symbolic bit streams",
-                level_text="Reader followed by writer reproduces the consumed bits for all stored blocks, fixed-Huffman token sequences and dynamic headers inside the bounds.",
-                level_note="Fixed tables precomputed natively from the same source and checked equal under Kani in the thorough tier; dynamic block data over full alphabets outside."),
+    "C06": dict(design_ref="§2 C06", technique=_T + ": stand-alone lemmas for the failure modes: signature table, exact gzip header length (RFC 1952), zip data offset, IDAT acceptance; scanner with offset oracle in the thorough tier",
+                level_text="next_signature reports exactly the documented signatures; skip_gzip_header leaves the cursor at the RFC 1952 header length for every flag subset; parse_zip_stream computes 30 + name + extra for method 8; parse_idat accepts every run with correct checksums. The scanner loop that glues them (offset-oracle harnesses) is thorough-tier only.",
+                level_note="Quick tier does not execute the scanner loop on an accepted stream (12-15 min and >20 GB per wrapper): the MIN_BLOCKSIZE threshold and the glue are undecided there. Inputs <= 16 (gzip) / 34 (zip) bytes."),
+    "C07": dict(design_ref="§2 C07", technique=_T + ": stored-block parse -> re-serialise identity; writer token coding vs an RFC 1951 reference decoder (fixed and arbitrary codes); reader on concrete-layout fixed tokens with symbolic extra bits",
+                level_text="Stored blocks: reader then writer reproduces the consumed bytes. Tokens: the writer emits exactly the RFC coding for every literal and (length, distance) incl. 284+31 under the fixed code and under arbitrary code lengths/values; the reader decodes the top length/distance codes with every extra-bit value.",
+                level_note="Fixed tables precomputed natively from the same source (equality under Kani in thorough). Outside: dynamic headers (HuffmanOriginalEncoding::read/write), multi-token reader runs (thorough), lower length/distance codes on the reader side (thorough)."),
     "C08": dict(design_ref="§2 C08", technique=_T + ": C02 mirror lemmas with the parameter vector symbolic over estimator_range",
                 level_text="The mirror lemmas hold for every parameter vector in estimator_range, so reconstruction cannot depend on which one the estimator picked.",
                 level_note="estimator_range predicate is hand-written from recommend() and the config tables and printed in evidence."),
@@ -429,9 +429,9 @@ PROPS = {
     "C12": dict(design_ref="§2 C12", technique=_T + ": C ABI wrappers with harness-owned guarded buffers over the zstd model",
                 level_text="Status, result_size and buffer bounds of both wrappers for all small inputs and capacities.",
                 level_note="catch_unwind is stubbed to call the closure (no unwinding semantics in Kani); 128 MiB bound and 'never unwinds' are not decided."),
-    "C13": dict(design_ref="§2 C13", technique=_T + ": recreated_zlib_chunks over solver-chosen read/write fragmentation and fault points",
-                level_text="For every fragmentation and fault schedule inside the bound: same output, or Err with a prefix written, never a panic.",
-                level_note="Literal-chunk containers only (deflate chunks need the real predictor); sizes bounded."),
+    "C13": dict(design_ref="§2 C13", technique=_T + ": recreated_zlib_chunks / recreate_idat under concrete fragmentation patterns (1-byte, 2-byte, bulk) and a hard fault at every source/destination offset, symbolic content",
+                level_text="For the listed fragmentation patterns and a fault at every offset of the container: same output, or Err with a prefix written, never a panic.",
+                level_note="Literal-chunk containers (3-4 byte files) and recreate_idat; solver-chosen per-call fragmentation and ErrorKind::Interrupted retries are outside (symbolic execution explodes)."),
 }
 NOT_APPLICABLE = {
     "C09": "statistical aggregate over outputs of four real compressors relative to a second build: no bounded symbolic assertion expresses it and the compressors/estimators cannot be encoded (DESIGN §C09)",
